@@ -400,7 +400,108 @@ pub fn run(report: &Report, thorough: bool) -> Evidence {
         |_| (),
     );
 
+    // ---- faults that arrive while the context lives: the user auto-correct file changes state between
+    // update-engine calls (every sequence of <= 3 states over {absent, valid A, valid B, empty, truncated,
+    // wrong shape}); after each sequence every word must render as in a context newly created over the
+    // final file (which, for unreadable content, renders as with the file absent — checked above)
+    let live_faults = AtomicU64::new(0);
+    {
+        let states: Vec<Option<&[u8]>> = vec![None, Some(br#"{"as":"ash"}"#), Some(br#"{"as":"asOr","aser":"eser"}"#), Some(b""), Some(br#"{"as":"a"#), Some(b"[1,2]")];
+        let mut seqs: Vec<Vec<usize>> = vec![];
+        for a in 0..states.len() {
+            seqs.push(vec![a]);
+            for b in 0..states.len() {
+                seqs.push(vec![a, b]);
+                for c in 0..states.len() {
+                    seqs.push(vec![a, b, c]);
+                }
+            }
+        }
+        par_for(
+            seqs.len() * cfgs.len(),
+            4,
+            |w| scratch_xdg(&format!("c10l-{}", w)),
+            |xdg, idx| {
+                let (ci, si) = (idx % cfgs.len(), idx / cfgs.len());
+                let mut o = Opts::phonetic(&tiny, xdg);
+                o.english = cfgs[ci].0;
+                o.smart = cfgs[ci].1;
+                // every initial state of the file as well
+                for init in 0..states.len() {
+                    live_faults.fetch_add(1, Ordering::Relaxed);
+                    let set = |k: usize, tick: u64| {
+                        let p = o.user_autocorrect_file();
+                        match states[k] {
+                            None => {
+                                let _ = std::fs::remove_file(&p);
+                            }
+                            Some(b) => {
+                                std::fs::write(&p, b).unwrap();
+                                let f = std::fs::File::options().write(true).open(&p).unwrap();
+                                f.set_modified(std::time::SystemTime::UNIX_EPOCH + std::time::Duration::from_secs(1_700_000_000 + tick * 10)).unwrap();
+                            }
+                        }
+                    };
+                    Fault::Files { sel: None, ac: None, label: String::new() }.install(&o);
+                    set(init, 0);
+                    let mut evs: Vec<Ev> = vec![];
+                    let mut live = match Ctx::new(&o) {
+                        Ok(c) => c,
+                        Err(p) => {
+                            report.add(Violation::new("C10", "panic-at-creation", "panic-at-creation:live").opts(&o).detail(p.short()));
+                            continue;
+                        }
+                    };
+                    live.with_pre = false;
+                    let mut failed = false;
+                    for (t, &k) in seqs[si].iter().enumerate() {
+                        set(k, t as u64 + 1);
+                        let up = Ev::Update(Box::new(o.clone()));
+                        evs.push(up.clone());
+                        if let Err(f) = live.apply(&up) {
+                            report.add(fail_violation("C10", &f, &o, &evs).feat("fault", format!("auto-correct file states {:?} then {:?}", init, seqs[si])));
+                            failed = true;
+                            break;
+                        }
+                    }
+                    if failed {
+                        continue;
+                    }
+                    let got = run_session(&mut live, &[Step::Type(0), Step::Type(2)]);
+                    let mut fresh = match Ctx::new(&o) {
+                        Ok(c) => c,
+                        Err(p) => {
+                            report.add(Violation::new("C10", "panic-at-creation", "panic-at-creation:live").opts(&o).detail(p.short()));
+                            continue;
+                        }
+                    };
+                    fresh.with_pre = false;
+                    let exp = run_session(&mut fresh, &[Step::Type(0), Step::Type(2)]);
+                    match (got, exp) {
+                        (Ok(g), Ok(x)) => {
+                            if g.rends != x.rends {
+                                let describe = |k: usize| states[k].map(|b| String::from_utf8_lossy(b).to_string()).unwrap_or("<absent>".into());
+                                report.add(
+                                    Violation::new("C10", "damaged-file-not-treated-as-absent-after-reload", "live-fault:reload")
+                                        .opts(&o)
+                                        .events(&evs)
+                                        .feat("fault", format!("auto-correct file: {} at creation, then {:?}", describe(init), seqs[si].iter().map(|&k| describe(k)).collect::<Vec<_>>()))
+                                        .detail(format!("user auto-correct file {} at creation, then (each followed by update-engine) {:?}: typing renders {:?} but a new context over the final file renders {:?}", describe(init), seqs[si].iter().map(|&k| describe(k)).collect::<Vec<_>>(), g.rends.iter().map(|r| r.to_json()).collect::<Vec<_>>(), x.rends.iter().map(|r| r.to_json()).collect::<Vec<_>>())),
+                                );
+                            }
+                        }
+                        (Err((e, f)), _) | (_, Err((e, f))) => {
+                            report.add(fail_violation("C10", &f, &o, &e).feat("fault", "live auto-correct file changes".to_string()));
+                        }
+                    }
+                }
+            },
+            |_| (),
+        );
+    }
+
     let mut ev = Evidence::new("C10", &report.tier, "fault_enumeration");
+    ev.set("live_fault_sequences_with_update_engine", live_faults.load(Ordering::Relaxed));
     ev.set("evaluations", runs.load(Ordering::Relaxed).max(1));
     ev.set("distinct_nontrivial", (faults.len() * cfgs.len()).max(2));
     ev.set("rule", "evaluations = (fault, configuration, session) runs: the fault is installed, a context is created with new_with_config and the session executed; distinct_nontrivial = distinct (fault, configuration) pairs. Faults: every byte prefix of every store of <= N entries in every key order (engine format), corpus documents for both files, every prefix of a valid auto-correct file, four directory states");
